@@ -180,7 +180,17 @@ def r08c(run):
     rt = [(n, c) for n, c in fa.all_calls() if is_convert_call(fa, n, c)
           and unparse(convert_type_arg(c)) == "self.generator_return_type"]
     ok = bool(rt)
-    if ok:
+    if ok and isinstance(rt[0][0].ast, ast.Return) and rt[0][0].ast.value is rt[0][1]:
+        # `return <conversion of the StopIteration value>`: the conversion result is what is returned
+        n, c = rt[0]
+        var = unparse(convert_value_arg(c))
+        for m in fa.cfg.nodes:
+            if m.kind == "stmt" and isinstance(m.ast, ast.Return) and m.ast.value is not None and m is not n \
+                    and unparse(m.ast.value) == var and fa.cfg.is_live(m):
+                fs = {(unparse(a), p) for a, p in fa.facts.atoms_at(m)}
+                if not any("generator_return_type" in t for t, p in fs):
+                    ok = False
+    elif ok:
         n, c = rt[0]
         ok = isinstance(n.ast, ast.Assign) and unparse(n.ast.targets[0]) == unparse(convert_value_arg(c))
         var = unparse(n.ast.targets[0]) if ok else None
